@@ -336,6 +336,10 @@ class AsyncFIXConnection:
                         self._msg_buffer = self._msg_buffer[parsed_length:]
 
                     if decoded_msg is None:
+                        if parsed_length > 0 and self._msg_buffer:
+                            # garbage or a rejected frame was dropped: the rest of the
+                            #   buffer may hold complete frames, do not wait for a read
+                            continue
                         break
 
                     await self._process_message(decoded_msg, raw_msg)
